@@ -1405,10 +1405,12 @@ theorem unmarshal_opaque_enc (S : Schema) (d : Nat) (hd : S.isOpaquePayloadDyn d
     unfold unmarshal
     rw [if_neg hdr, Cur.start_enc _ h]
     simp only [Res.ok_bind, hk, if_neg htag]
-    rw [show decFuel (enc (Item.struct tag its)).length
-      = ((enc (Item.struct tag its)).length + 2999998 + 1) + 1 from by unfold decFuel; omega, decK]
+    obtain ⟨f, hf, hsz'⟩ : ∃ f, decFuel (enc (Item.struct tag its)).length = f + 1 + 1
+        ∧ Item.sizeList its ≤ f :=
+      ⟨(enc (Item.struct tag its)).length + 2999998, by unfold decFuel; omega, by omega⟩
+    rw [hf, decK]
     simp only [h1, if_true, h3]
-    rw [decCustom_unknownPayload_enc S tag its h _ (by omega)]
+    rw [decCustom_unknownPayload_enc S tag its h f hsz']
     rfl
   · exact nomatch hd
 
